@@ -150,10 +150,12 @@ Definition wf_obs (o : obs) : Prop :=
   NoDup (keys (o_nonces o)) /\ (forall k l, In (k, l) (o_nonces o) -> NoDup (keys l)).
 
 (* every observation is a well-formed map structure and passed ValidateObservation for its oracle *)
-Definition validated (sup : N -> list N) (dest : N) (aos : list ao) : Prop :=
-  forall o ob, In (o, ob) aos -> wf_obs ob /\ validate (sup o) dest ob = true.
-Definition validated_unfixed (sup : N -> list N) (dest : N) (aos : list ao) : Prop :=
-  forall o ob, In (o, ob) aos -> wf_obs ob /\ validate_unfixed (sup o) dest ob = true.
+Definition validated (sup : N -> list N) (dest : N) (fchain : list (N * Z)) (aos : list ao) : Prop :=
+  forall o ob, In (o, ob) aos -> wf_obs ob /\ validate (sup o) dest fchain ob = true.
+Definition validated_unfixed (sup : N -> list N) (dest : N) (fchain : list (N * Z)) (aos : list ao) : Prop :=
+  forall o ob, In (o, ob) aos -> wf_obs ob /\ validate_unfixed (sup o) dest fchain ob = true.
+Definition validated_nochains (sup : N -> list N) (dest : N) (aos : list ao) : Prop :=
+  forall o ob, In (o, ob) aos -> wf_obs ob /\ validate_nochains (sup o) dest ob = true.
 
 Lemma nodup_app {A} (l1 l2 : list A) :
   NoDup l1 -> NoDup l2 -> (forall x, In x l1 -> In x l2 -> False) -> NoDup (l1 ++ l2).
@@ -197,20 +199,22 @@ Proof.
       * intros Hi. apply (Hout d' Hd'). now right.
 Qed.
 
-Lemma validated_commits_nodup sup dest o k :
-  wf_obs o -> validate sup dest o = true -> NoDup (entries k (o_commits o)).
+Lemma validated_commits_nodup sup dest fchain o k :
+  wf_obs o -> validate sup dest fchain o = true -> NoDup (entries k (o_commits o)).
 Proof.
   intros [NDk _] Hv. unfold validate in Hv. apply andb_prop in Hv. destruct Hv as [Hv _].
+  apply andb_prop in Hv. destruct Hv as [Hv _].
   apply andb_prop in Hv. destruct Hv as [_ Hs].
   destruct (entries_cases k _ NDk) as [->|[l [Hi ->]]]; [constructor|].
   unfold validate_seqnums in Hs. rewrite forallb_forall in Hs. specialize (Hs _ Hi). cbn [snd] in Hs.
   apply val_reports_nodup in Hs. eapply NoDup_map_inv. apply Hs.
 Qed.
 
-Lemma validated_msgs_nodup sup dest o k :
-  wf_obs o -> validate sup dest o = true -> NoDup (map snd (entries k (o_msgs o))).
+Lemma validated_msgs_nodup sup dest fchain o k :
+  wf_obs o -> validate sup dest fchain o = true -> NoDup (map snd (entries k (o_msgs o))).
 Proof.
-  intros [_ [NDk [NDl _]]] Hv. unfold validate in Hv. apply andb_prop in Hv. destruct Hv as [_ Hm].
+  intros [_ [NDk [NDl _]]] Hv. unfold validate in Hv. apply andb_prop in Hv. destruct Hv as [Hv _].
+  apply andb_prop in Hv. destruct Hv as [_ Hm].
   destruct (entries_cases k _ NDk) as [->|[l [Hi ->]]]; [constructor|].
   unfold validate_msg_keys in Hm. rewrite forallb_forall in Hm. specialize (Hm _ Hi). cbn [snd] in Hm.
   rewrite forallb_forall in Hm. specialize (NDl _ _ Hi). unfold keys in NDl.
@@ -234,6 +238,24 @@ Proof.
   cbn [fst snd] in E. inversion E; subst. apply Hn. apply in_map_iff. exists (c, l'). split; [reflexivity|exact Hi].
 Qed.
 
+(* after the repair of F13d a validated observation list has no chain key that fChain lacks *)
+Lemma validated_no_unknown sup dest fchain aos :
+  validated sup dest fchain aos ->
+  unknown_key fchain o_commits aos = false /\ unknown_key fchain o_msgs aos = false /\
+  unknown_key fchain o_tokens aos = false.
+Proof.
+  intros Hv.
+  assert (H : forall {V} (proj : obs -> list (N * V)),
+             (forall ob k, In k (keys (proj ob)) -> In k (keys (o_commits ob) ++ keys (o_msgs ob) ++ keys (o_tokens ob))) ->
+             unknown_key fchain proj aos = false).
+  { intros V proj Hsub. destruct (unknown_key fchain proj aos) eqn:E; [|reflexivity]. exfalso. unfold unknown_key in E.
+    apply existsb_exists in E. destruct E as [[o ob] [Hi E]]. apply existsb_exists in E. destruct E as [k [Hk E]].
+    cbn [snd] in *. destruct (Hv o ob Hi) as [_ Hval]. unfold validate in Hval.
+    apply andb_prop in Hval. destruct Hval as [_ Hc]. unfold validate_chains in Hc.
+    rewrite forallb_forall in Hc. rewrite (Hc k (Hsub ob k Hk)) in E. discriminate. }
+  repeat split; apply H; intros ob k Hk; rewrite !in_app_iff; tauto.
+Qed.
+
 (* ---------- per-chain validators ---------- *)
 Lemma per_chain_in {T} (eqb : T -> T -> bool) items fchain k (l : list T) :
   In (k, l) (per_chain eqb items fchain) <->
@@ -254,7 +276,7 @@ Definition tok_at (c s : N) (i : nat) (ob : obs) : list tok :=
 
 (* ---------- C07_commit ---------- *)
 Theorem merge_commits_sound sup dest fchain aos r k l x :
-  NoDup (map fst aos) -> validated sup dest aos ->
+  NoDup (map fst aos) -> validated sup dest fchain aos ->
   merge_commits fchain aos = Ok r -> In (k, l) r -> In x l ->
   exists f, In (k, f) fchain /\ supported_by (commits_at k) (f_plus_1 f) aos x /\
             (forall o ob, In (o, ob) aos -> NoDup (commits_at k ob)).
@@ -270,13 +292,14 @@ Proof.
 Qed.
 
 Theorem merge_commits_complete sup dest fchain aos k f x rs :
-  NoDup (map fst aos) -> validated sup dest aos -> unknown_key fchain o_commits aos = false ->
+  NoDup (map fst aos) -> validated sup dest fchain aos ->
   In (k, f) fchain ->
   NoDup rs -> rs <> [] -> (forall o, In o rs -> exists ob, In (o, ob) aos /\ In x (commits_at k ob)) ->
   (f_plus_1 f <= N.of_nat (length rs))%N ->
   exists r l, merge_commits fchain aos = Ok r /\ In (k, l) r /\ In x l.
 Proof.
-  intros ND Hv Hu Hf NDr Hne Hrs Hthr. unfold merge_commits. rewrite Hu.
+  intros ND Hv Hf NDr Hne Hrs Hthr. unfold merge_commits.
+  destruct (validated_no_unknown _ _ _ _ Hv) as [Hu _]. rewrite Hu.
   assert (Hnd : forall a, In a aos -> NoDup (commits_at k (snd a))).
   { intros [o ob] Hi. destruct (Hv o ob Hi) as [Hw Hval]. eapply validated_commits_nodup; eassumption. }
   pose proof (supported_valid commit_eqb commit_eqb_spec (commits_at k) _ aos x rs ND Hnd NDr Hrs Hthr Hne) as Hx.
@@ -287,7 +310,7 @@ Qed.
 
 (* ---------- C07_message (after the repair of F13a) ---------- *)
 Theorem merge_msgs_sound sup dest fchain aos r k l x :
-  NoDup (map fst aos) -> validated sup dest aos ->
+  NoDup (map fst aos) -> validated sup dest fchain aos ->
   merge_msgs fchain aos = Ok r -> In (k, l) r -> In x l ->
   exists f, In (k, f) fchain /\ supported_by (msgs_at k) (f_plus_1 f) aos x /\
             (forall o ob, In (o, ob) aos -> NoDup (msgs_at k ob)).
@@ -303,13 +326,14 @@ Proof.
 Qed.
 
 Theorem merge_msgs_complete sup dest fchain aos k f x rs :
-  NoDup (map fst aos) -> validated sup dest aos -> unknown_key fchain o_msgs aos = false ->
+  NoDup (map fst aos) -> validated sup dest fchain aos ->
   In (k, f) fchain ->
   NoDup rs -> rs <> [] -> (forall o, In o rs -> exists ob, In (o, ob) aos /\ In x (msgs_at k ob)) ->
   (f_plus_1 f <= N.of_nat (length rs))%N ->
   exists r l, merge_msgs fchain aos = Ok r /\ In (k, l) r /\ In x l.
 Proof.
-  intros ND Hv Hu Hf NDr Hne Hrs Hthr. unfold merge_msgs. rewrite Hu.
+  intros ND Hv Hf NDr Hne Hrs Hthr. unfold merge_msgs.
+  destruct (validated_no_unknown _ _ _ _ Hv) as [_ [Hu _]]. rewrite Hu.
   assert (Hnd : forall a, In a aos -> NoDup (msgs_at k (snd a))).
   { intros [o ob] Hi. destruct (Hv o ob Hi) as [Hw Hval]. eapply validated_msgs_nodup; eassumption. }
   pose proof (supported_valid msg_eqb msg_eqb_spec (msgs_at k) _ aos x rs ND Hnd NDr Hrs Hthr Hne) as Hx.
@@ -369,8 +393,8 @@ Proof.
 Qed.
 
 (* ---------- C07_nonce ---------- *)
-Theorem merge_nonces_sound sup dest fdest aos x :
-  NoDup (map fst aos) -> validated sup dest aos ->
+Theorem merge_nonces_sound sup dest fchain fdest aos x :
+  NoDup (map fst aos) -> validated sup dest fchain aos ->
   In x (merge_nonces fdest aos) ->
   supported_by nonce_triples (f_plus_1 fdest) aos x /\
   (forall o ob, In (o, ob) aos -> NoDup (nonce_triples ob)).
@@ -383,8 +407,8 @@ Proof.
   - intros o ob Hi. apply (Hnd (o, ob) Hi).
 Qed.
 
-Theorem merge_nonces_complete sup dest fdest aos x rs :
-  NoDup (map fst aos) -> validated sup dest aos ->
+Theorem merge_nonces_complete sup dest fchain fdest aos x rs :
+  NoDup (map fst aos) -> validated sup dest fchain aos ->
   NoDup rs -> rs <> [] -> (forall o, In o rs -> exists ob, In (o, ob) aos /\ In x (nonce_triples ob)) ->
   (f_plus_1 fdest <= N.of_nat (length rs))%N ->
   In x (merge_nonces fdest aos).
@@ -481,14 +505,14 @@ Proof.
   - intros k l Hi. rewrite forallb_forall in H0. apply nodupb_N. apply (H0 (k, l) Hi).
 Qed.
 
-Lemma validated_of_bool sup dest aos :
-  forallb (fun a => wf_obsb (snd a) && validate (sup (fst a)) dest (snd a)) aos = true -> validated sup dest aos.
+Lemma validated_of_bool sup dest fchain aos :
+  forallb (fun a => wf_obsb (snd a) && validate (sup (fst a)) dest fchain (snd a)) aos = true -> validated sup dest fchain aos.
 Proof.
   intros H o ob Hi. rewrite forallb_forall in H. specialize (H _ Hi). cbn [fst snd] in H.
   apply andb_prop in H. destruct H as [H1 H2]. split; [now apply wf_obsb_sound|exact H2].
 Qed.
-Lemma validated_unfixed_of_bool sup dest aos :
-  forallb (fun a => wf_obsb (snd a) && validate_unfixed (sup (fst a)) dest (snd a)) aos = true -> validated_unfixed sup dest aos.
+Lemma validated_unfixed_of_bool sup dest fchain aos :
+  forallb (fun a => wf_obsb (snd a) && validate_unfixed (sup (fst a)) dest fchain (snd a)) aos = true -> validated_unfixed sup dest fchain aos.
 Proof.
   intros H o ob Hi. rewrite forallb_forall in H. specialize (H _ Hi). cbn [fst snd] in H.
   apply andb_prop in H. destruct H as [H1 H2]. split; [now apply wf_obsb_sound|exact H2].
@@ -507,7 +531,7 @@ Definition ex_fchain : list (N * Z) := [(1, 1%Z); (2, 1%Z)].
 
 (* the hypotheses of the soundness theorems are met by a non-trivial value, and every kind of item is merged *)
 Example c07_example :
-  NoDup (map fst ex_aos) /\ validated ex_sup 2 ex_aos /\
+  NoDup (map fst ex_aos) /\ validated ex_sup 2 ex_fchain ex_aos /\
   get_consensus 1 2 ex_fchain ex_aos =
     Ok (mkMerged [(1, [ex_c])] [(1, [ex_m])] [(1, [(10, [ex_t])])] [9] [(1, 4, 6)]).
 Proof.
@@ -519,7 +543,7 @@ Qed.
    valid at threshold 2 all by itself *)
 Theorem merge_msgs_unfixed_refuted :
   exists sup dest fchain aos r k l x f,
-    NoDup (map fst aos) /\ validated_unfixed sup dest aos /\
+    NoDup (map fst aos) /\ validated_unfixed sup dest fchain aos /\
     merge_msgs fchain aos = Ok r /\ In (k, l) r /\ In x l /\ In (k, f) fchain /\
     (N.of_nat (length (supporters msg_eqb (msgs_at k) x aos)) < f_plus_1 f)%N.
 Proof.
@@ -540,18 +564,39 @@ Proof.
   split; [repeat constructor; intros []|]. split; [vm_compute; now left|vm_compute; reflexivity].
 Qed.
 
-(* F13d (recorded): one validated observation with an empty message map under a chain key that fChain lacks
-   turns a successful merge into an error *)
-Theorem non_blocking_refuted :
+(* F13d: before the repair (validateObservedChains) one accepted observation with an empty message map under a chain
+   key that fChain lacks turned a successful merge into an error for everybody *)
+Lemma validated_nochains_of_bool sup dest aos :
+  forallb (fun a => wf_obsb (snd a) && validate_nochains (sup (fst a)) dest (snd a)) aos = true -> validated_nochains sup dest aos.
+Proof.
+  intros H o ob Hi. rewrite forallb_forall in H. specialize (H _ Hi). cbn [fst snd] in H.
+  apply andb_prop in H. destruct H as [H1 H2]. split; [now apply wf_obsb_sound|exact H2].
+Qed.
+
+Theorem non_blocking_unfixed_refuted :
   exists sup bigF dest fchain aos a,
-    NoDup (map fst (a :: aos)) /\ validated sup dest (a :: aos) /\
+    NoDup (map fst (a :: aos)) /\ validated_nochains sup dest (a :: aos) /\
     is_ok (get_consensus bigF dest fchain aos) = true /\
     get_consensus bigF dest fchain (a :: aos) = Err.
 Proof.
   exists ex_sup, 1%Z, 2%N, ex_fchain, ex_aos, (2%N, mkObs [] [(99, [])] [] [] []).
   split; [repeat constructor; cbn; intuition discriminate|].
-  split; [apply validated_of_bool; vm_compute; reflexivity|].
+  split; [apply validated_nochains_of_bool; vm_compute; reflexivity|].
   split; vm_compute; reflexivity.
+Qed.
+
+(* C07_non_blocking at full strength: on validated observations the merge never fails (unless there are fewer than F
+   of them); together with the *_complete theorems every item with f+1 reporters is delivered whatever else any
+   observation holds *)
+Theorem get_consensus_ok sup bigF dest fchain aos :
+  validated sup dest fchain aos -> (bigF <= Z.of_nat (length aos))%Z ->
+  exists cs ms ts,
+    merge_commits fchain aos = Ok cs /\ merge_msgs fchain aos = Ok ms /\ merge_tokens fchain aos = Ok ts /\
+    get_consensus bigF dest fchain aos =
+      Ok (mkMerged cs ms ts (merge_costly (f_dest dest fchain) aos) (merge_nonces (f_dest dest fchain) aos)).
+Proof.
+  intros Hv HF. apply get_consensus_ok_except_known; [|exact HF].
+  destruct (validated_no_unknown _ _ _ _ Hv) as [H1 [H2 H3]]. unfold any_unknown_key. now rewrite H1, H2, H3.
 Qed.
 
 (* F13e (recorded): one oracle claiming an extra token slot for a message makes its merged token data not ready *)
